@@ -210,6 +210,40 @@ def recover(repo, inv) -> Dict[str, str]:
     if attr_map or name_map:
         _apply(repo, attr_map, name_map)
         attr_map, name_map = {}, {}
+    # ---- nested functions / classes that were hoisted to module (or class) level: same body, new home
+    cur_f = {fi.qual: fi for fi in repo.all_funcs()}
+    cur_c = {c.qual: c for c in repo.all_classes()}
+    hoisted = []
+    hoisted_classes = []
+    for q in sorted(known_f):
+        scope, name = q.rsplit(".", 1)
+        if q in cur_f or scope not in cur_f or scope.count(".") < 1:
+            continue  # still there, or not nested in a function that still exists
+        modname = q.split(".")[0]
+        cands = {fq: shape_tokens(fi.node) for fq, fi in cur_f.items() if fq not in known_f and fq.split(".")[0] == modname and fi.parent is None
+                 and fq not in mapping}
+        stem = name.strip("_").lower()
+        # a hoisted helper keeps its name (give or take an underscore / prefix); the shape differs a little
+        # because closure variables became parameters
+        cands = {fq: sh for fq, sh in cands.items() if stem and (stem in fq.rsplit(".", 1)[1].lower() or fq.rsplit(".", 1)[1].strip("_").lower() in stem)}
+        best = sorted(((_sim(shapes.get(q, []), sh), fq) for fq, sh in cands.items()), reverse=True)
+        if best and best[0][0] >= 0.5 and (len(best) == 1 or best[1][0] < best[0][0] - 0.08):
+            hoisted.append((scope, name, best[0][1]))
+            mapping[best[0][1]] = q + " (hoisted)"
+    for q in sorted(known_c):
+        scope, name = q.rsplit(".", 1)
+        if q in cur_c or scope not in cur_f:
+            continue
+        modname = q.split(".")[0]
+        cands = {cq: shape_tokens(c.node) for cq, c in cur_c.items() if cq not in known_c and cq.split(".")[0] == modname and c.outer is None}
+        stem = name.strip("_").lower()
+        cands = {cq: sh for cq, sh in cands.items() if stem in cq.rsplit(".", 1)[1].lower()}
+        best = sorted(((_sim((inv.get("class_shapes") or {}).get(q, []), sh), cq) for cq, sh in cands.items()), reverse=True)
+        if best and best[0][0] >= 0.5:
+            mapping[best[0][1]] = q + " (hoisted class)"
+            hoisted_classes.append((scope, name, best[0][1]))
+    repo.hoisted = hoisted
+    repo.hoisted_classes = hoisted_classes
     # ---- attributes and module globals
     from .inline import shared_tables
     known_t = set(inv.get("tables") or [])
